@@ -355,7 +355,8 @@ func (h *NtfnsHandler) filterTxForImporting(tx *wire.MsgTx, blockMeta *txmgr.Blo
 	return rec, nil
 }
 
-func (h *NtfnsHandler) filterTx(tx *wire.MsgTx, blockMeta *txmgr.BlockMeta,
+// dbtx is the open transaction the enclosing block is being applied in (nil for unmined tx).
+func (h *NtfnsHandler) filterTx(dbtx mwdb.ReadTransaction, tx *wire.MsgTx, blockMeta *txmgr.BlockMeta,
 	recInCurBlk map[wire.Hash]*txmgr.TxRecord,
 	readyWallets map[string]struct{}) (bool, *txmgr.TxRecord, error) {
 
@@ -391,12 +392,10 @@ func (h *NtfnsHandler) filterTx(tx *wire.MsgTx, blockMeta *txmgr.BlockMeta,
 				} else {
 					// For connected block, it's unnecessary to go on checking
 					// if no output created by previous hash.
-					exist := false
-					mwdb.View(h.walletMgr.db, func(rtx mwdb.ReadTransaction) error {
-						exist = h.walletMgr.utxoStore.ExistCreditFromTx(rtx, &txIn.PreviousOutPoint.Hash)
-						return nil
-					})
-					if !exist {
+					// look through the open transaction: several blocks may be applied in
+					// one batch (reorg, catch-up) and a separate view would not see credits
+					// created by the earlier ones.
+					if !h.walletMgr.utxoStore.ExistCreditFromTx(dbtx, &txIn.PreviousOutPoint.Hash) {
 						continue
 					}
 				}
@@ -570,7 +569,7 @@ func (h *NtfnsHandler) filterBlock(dbtx mwdb.DBTransaction, readyWallets map[str
 	if len(readyWallets) > 0 {
 		recInCurBlk := make(map[wire.Hash]*txmgr.TxRecord)
 		for i, tx := range block.Transactions {
-			isRelevant, rec, err := h.filterTx(tx, blockMeta, recInCurBlk, readyWallets)
+			isRelevant, rec, err := h.filterTx(dbtx, tx, blockMeta, recInCurBlk, readyWallets)
 			if err != nil {
 				logging.CPrint(logging.WARN, "Unable to filter transaction",
 					logging.LogFormat{
@@ -1192,7 +1191,7 @@ func (h *NtfnsHandler) proccessReceivedTx(tx *wire.MsgTx) error {
 	if err != nil {
 		return err
 	}
-	if _, _, err := h.filterTx(tx, nil, nil, readyWallets); err != nil {
+	if _, _, err := h.filterTx(nil, tx, nil, nil, readyWallets); err != nil {
 		logging.CPrint(logging.WARN, "Unable to filter transaction",
 			logging.LogFormat{
 				"tx":  tx.TxHash().String(),
